@@ -65,6 +65,7 @@ pub fn reset_token_event_native(same_addr: bool) -> u32 {
         reset_token: None,
     });
     let ch = ConnectionHandle(id);
+    ep.index.connection_ids_initial.insert(ConnectionId::new(&[1; 8]), RouteDatagramTo::Connection(ch));
     assert!(ep.handle_event(ch, EndpointEvent(EndpointEventInner::ResetToken(a, t1))).is_none());
     assert!(ep.index.connection_reset_tokens.get(a, &[1u8; 16]) == Some(&ch));
     assert!(ep.handle_event(ch, EndpointEvent(EndpointEventInner::ResetToken(b, t2))).is_none());
